@@ -70,6 +70,21 @@ def run(tier, wd):
             c["argv"], c["spec"], c["extraflag"] = argv, "[-x | -o]...", True
             cases.append(c)
             abstracts.append(a)
+    # an empty string as a separate option value; a literal -- among the arguments after options were ended
+    for m, d in itertools.product([False, True], repeat=2):
+        caps = {"bool": False, "multi": m, "isdefault": d, "failon": list(V.INVALID["custom"])}
+        for toks, argv, spec, role in ([[""], ["-o", ""], "[-o]...", "opt"], [[""], ["--opt", ""], "[-o]...", "opt"], [["t1", ""], ["-ot1", "-o", ""], "[-o]...", "opt"],
+                                       [["", "t2"], ["--opt", "", "--opt=t2"], "[-o]...", "opt"],
+                                       [["t1", "--", "t2"], ["--", "t1", "--", "t2"], "[A...]", "arg"], [["t1", "--"], ["--", "t1", "--"], "[A...]", "arg"],
+                                       [["--", "t1"], ["--", "--", "t1"], "[A...]", "arg"], [["t1", "--", "--"], ["t1", "--", "--", "--"], "[A...]", "arg"]):
+            if len(toks) > 1 and not m and role == "opt" and False:
+                continue
+            n += 1
+            c, a = V.concrete("custom", role, False, None, (), ("valid",) * len(toks), rnd, custom=caps, tag="_%d" % (n % 7))
+            c["cli"], c["argv"], c["spec"] = list(toks), list(argv), spec
+            a["cli"] = [{"id": t, "ok": True} for t in toks]
+            cases.append(c)
+            abstracts.append(a)
     rows = vc.run_cases(rep, wd, binpath, cases, abstracts, "c19")
     nontriv = set()
     for case, a, clean, dev, r in rows:
